@@ -7,6 +7,7 @@ package checks
 
 import (
 	"fmt"
+	"strings"
 
 	"verif/internal/ev"
 	"verif/internal/lite"
@@ -39,6 +40,10 @@ func c18Stored(r *ev.Run) {
 			continue
 		}
 		img := l.Serialize()
+		liteTables := map[string]*TableDump{}
+		if ld, err := LiteDump(l); err == nil {
+			liteTables = ld.Tables
+		}
 		l.Close()
 		r.Validated(1)
 		h, d, _, err := vpager.OpenImage(img)
@@ -58,6 +63,12 @@ func c18Stored(r *ev.Run) {
 			if err := h.Select(tn, func(row sqlittle.Row) { rows = append(rows, cloneRow(row)) }, cols...); err != nil {
 				continue
 			}
+			// what SQLite stores there (same order: rowid / primary key)
+			var lrows [][]interface{}
+			if lt := liteTables[strings.ToLower(tn)]; lt != nil && len(lt.Cols) == len(cols) {
+				lrows = lt.Rows
+			}
+			rowsAll := rows
 			if len(rows) > 40 {
 				rows = rows[:40]
 			}
@@ -65,6 +76,13 @@ func c18Stored(r *ev.Run) {
 				for c := range row {
 					cells++
 					art := map[string]interface{}{"family": "stored-values", "script": sc.Name, "table": tn, "column": cols[c], "row": ri}
+					if lrows != nil && ri < len(lrows) && len(lrows) == len(rowsAll) {
+						// the rowid column leads SQLite's dump of rowid tables
+						lv := lrows[ri][len(lrows[ri])-len(row)+c]
+						if (lv == nil) != (row[c] == nil) {
+							r.Violation("C18:stored-null", fmt.Sprintf("%s.%s of %s, row %d: the row holds %s, SQLite stores %s (a stored NULL scans to the zero value, a missing column to its default)", tn, cols[c], sc.Name, ri, VS(row[c]), VS(lv)), art)
+						}
+					}
 					switch row[c].(type) {
 					case nil, int64, float64, string, []byte:
 					default:
